@@ -50,6 +50,7 @@ type daemonIn struct {
 	Scale int         `json:"scale"` // sleeps are divided by this
 }
 type daemonFanObs struct {
+	Touched bool `json:"touched"` // the log shows a PWM write to this fan
 	Began bool `json:"began"`
 	Mode  int  `json:"mode"`
 	Pwm   int  `json:"pwm"`
@@ -351,6 +352,9 @@ func daemonRun(ctx *Ctx, seq int, in daemonIn) (daemonObs, string, []string) {
 		}
 	}
 	long := 25 * time.Second
+	if in.Scn == 8 {
+		long = 70 * time.Second // the analysis of the fan runs in real time
+	}
 	n := len(in.Fans)
 	allTicking := func(except int) func([]string) bool {
 		return func(l []string) bool {
@@ -391,6 +395,13 @@ func daemonRun(ctx *Ctx, seq int, in daemonIn) (daemonObs, string, []string) {
 			// the RPM sensor of the fan under initialisation disappears
 			os.WriteFile(filepath.Join(chip, fmt.Sprintf("fan%d_input.fail", hw)), []byte("x"), 0644)
 			obs.Markers = append(obs.Markers, "rpm-fault-injected")
+		}
+	case 8:
+		// a fan that has not been analysed yet: the signal arrives when its initialization sequence starts measuring;
+		// the controller does not look at the context before its control loop, so the process lives on until the
+		// analysis is complete (unscaled sleeps: well over 10 s) and must hand the fan back then
+		if mark("initialization-started", w.waitFor(func(l []string) bool { return daemonCount(l, "Measuring RPM curve") >= 1 }, long)) {
+			sendSignals(0)
 		}
 	case 6, 7:
 		if mark("all-ticking", w.waitFor(allTicking(-1), long)) {
@@ -446,7 +457,8 @@ func daemonRun(ctx *Ctx, seq int, in daemonIn) (daemonObs, string, []string) {
 	}
 	for i, f := range in.Fans {
 		fo := daemonFanObs{Began: daemonCount(lines, "Starting controller loop for fan '"+ids[i]+"'") >= 1,
-			Pwm: daemonReadInt(ps[i].pwm, -999), Mode: f.OrigMode}
+			Pwm: daemonReadInt(ps[i].pwm, -999), Mode: f.OrigMode,
+			Touched: daemonCount(lines, "Setting PWM of "+ids[i]+" to") >= 1 || daemonCount(lines, "Setting Fan PWM of '"+ids[i]+"'") >= 1}
 		if f.Kind == "hwmon" && f.Exists {
 			fo.Mode = daemonReadInt(ps[i].en, -999)
 		}
@@ -463,7 +475,7 @@ func daemonRun(ctx *Ctx, seq int, in daemonIn) (daemonObs, string, []string) {
 		rpm := f.Rpm || f.Kind == "hwmon"
 		fl[i] = cRec("mkFanObs", b, cBool(f.Kind == "hwmon" && f.Exists), cBool(rpm),
 			"(mkDev "+cZ(f.OrigMode)+" "+cZ(f.OrigPwm)+")", cBool(obs.Fans[i].Began),
-			"(mkDev "+cZ(obs.Fans[i].Mode)+" "+cZ(obs.Fans[i].Pwm)+")")
+			"(mkDev "+cZ(obs.Fans[i].Mode)+" "+cZ(obs.Fans[i].Pwm)+")", cBool(obs.Fans[i].Touched))
 	}
 	coq := cRec("mkCase", cList(fl), "3", cZ(in.Scn), cZ(in.NSig), cZ(obs.Exit), cBool(obs.Panic))
 	tags := []string{fmt.Sprintf("scn=%d", in.Scn), fmt.Sprintf("nsig=%d", in.NSig), fmt.Sprintf("exit=%d", obs.Exit)}
@@ -493,6 +505,14 @@ func daemonGen(rng *Rng, scn int) daemonIn {
 	}
 	slow := daemonFan{Kind: "cmdslow", OrigMode: 1, OrigPwm: 40}
 	switch scn {
+	case 8:
+		in.Scale = 1
+		h := hwf()
+		h.Exists, h.OrigMode, h.MaxPwm = true, rng.Pick([]int{2, 2, 5}), 0
+		in.Fans = []daemonFan{h}
+		if rng.Bool() {
+			in.Fans = []daemonFan{filef(rng.Bool()), h}
+		}
 	case 4:
 		in.Fans = []daemonFan{slow, hwf()}
 	case 5:
@@ -521,6 +541,8 @@ func daemonGen(rng *Rng, scn int) daemonIn {
 		}
 	}
 	switch scn {
+	case 8:
+		in.NSig = 1
 	case 5, 6:
 		in.NSig = 0
 	case 4:
@@ -554,6 +576,15 @@ func init() {
 				n = ctx.Param("n", 400)
 			}
 			mix := []int{1, 4, 5, 6, 7, 2, 3, 1, 4, 5, 7, 6, 1, 2, 3, 4}
+			// the long cases first, so that they run concurrently with all the short ones
+			nLong := ctx.Param("long", 1)
+			if !ctx.Quick() {
+				nLong = ctx.Param("long", 4)
+			}
+			for i := 0; i < nLong; i++ {
+				jobs = append(jobs, daemonGen(rng, 8))
+				jtags = append(jtags, []string{"generated", "signal-during-analysis"})
+			}
 			for i := 0; i < n; i++ {
 				jobs = append(jobs, daemonGen(rng, mix[i%len(mix)]))
 				jtags = append(jtags, []string{"generated"})
